@@ -35,10 +35,30 @@ Layout == [
   glog_rowlabel |-> << F("row",1,7,"int") >>,
   glog_twoel |-> << F("li",1,3,"lit: I="), F("i",4,6,"int"), F("lj",7,9,"lit: J="), F("j",10,12,"int"), F("lk",13,15,"lit: K="),
                     F("k",16,18,"int"), F("ll",19,21,"lit: L="), F("l",22,24,"int"), F("lint",25,29,"lit: Int=") >>,
+  \* GAMESS punch, "COORDINATES OF SYMMETRY UNIQUE ATOMS (ANGS)": (1X,A10,F5.1,3F15.10), transcribed from the sample file
+  gamess_coord |-> << F("sp",1,1,"lit: "), F("sym",2,11,"sl"), F("charge",12,16,"f1"), F("x",17,31,"f10"), F("y",32,46,"f10"), F("z",47,61,"f10") >>,
   cube_axis  |-> << F("n",1,5,"int"), F("x",6,17,"f6"), F("y",18,29,"f6"), F("z",30,41,"f6") >>,
   cube_atom  |-> << F("z",1,5,"int"), F("q",6,17,"f6"), F("x",18,29,"f6"), F("y",30,41,"f6"), F("zz",42,53,"f6") >>
 ]
 Width(f) == f.to - f.from + 1
+\* Values that fill a numeric field completely, so that it touches its left neighbour: all nines.  A fixed-point field of
+\* width w with d decimals holds w-1 digits when positive (one column is the point) and w-2 when negative (sign and point);
+\* an integer field holds w digits, or w-1 after a sign.  Counted in digits (the numbers themselves exceed TLC's integers).
+IsFixed(f) == Len(f.kind) >= 2 /\ SubSeq(f.kind, 1, 1) = "f"
+DigitOf(c) == CHOOSE n \in 0..9 : ToString(n) = c
+Decimals(f) == IF ~IsFixed(f) THEN 0
+               ELSE IF Len(f.kind) = 2 THEN DigitOf(SubSeq(f.kind, 2, 2))
+               ELSE 10 * DigitOf(SubSeq(f.kind, 2, 2)) + DigitOf(SubSeq(f.kind, 3, 3))
+IsNumeric(f) == f.kind = "int" \/ IsFixed(f)
+Fill(f) == [pos |-> IF IsFixed(f) THEN Width(f) - 1 ELSE Width(f), neg |-> IF IsFixed(f) THEN Width(f) - 2 ELSE Width(f) - 1,
+            dec |-> Decimals(f)]
+\* printed width of a number of n nines with d decimals and an optional sign
+Printed(n, d, signed) == n + (IF d > 0 THEN 1 ELSE 0) + (IF signed THEN 1 ELSE 0)
+FillFits(rec) == \A i \in 1..Len(rec) : IsNumeric(rec[i]) =>
+   /\ Printed(Fill(rec[i]).pos, Decimals(rec[i]), FALSE) = Width(rec[i])
+   /\ Printed(Fill(rec[i]).neg, Decimals(rec[i]), TRUE) = Width(rec[i])
+   /\ Fill(rec[i]).neg > Decimals(rec[i])                       \* at least one digit before the point
+Fills(rec) == [i \in {j \in 1..Len(rec) : IsNumeric(rec[j])} |-> [field |-> rec[i].name, pos |-> Fill(rec[i]).pos, neg |-> Fill(rec[i]).neg, dec |-> Fill(rec[i]).dec]]
 \* ranges ordered, non-overlapping, contiguous (neighbouring fields can touch) and literals fit their field
 WellFormed(rec) == \A i \in 1..Len(rec) :
    /\ rec[i].from <= rec[i].to
